@@ -15,6 +15,35 @@ CLAIMED = {
                 note="Trusted: TLC, the harness projection (u64 -> 8 LE bytes), fatal_error! -> Err under cfg(ax_verif) (the wasm32 behaviour). "
                      "Conformance is by testing: bounded-exhaustive over the model's edges, sampled over 64-bit values.",
                 technique="TLA+ spec + TLC model checking; TLC trace validation of model-edge replays and random API histories"),
+    "C08": dict(category="model_checking",
+                text="TLC explores Memory.tla (areas with bytes and protection) against an independent flat shadow memory: every read result and "
+                     "every write footprint of every explored edge is checked against the flat ground truth, incl. accesses at addresses/lengths "
+                     "near 2^64. Every read/write edge of the depth-2 model is replayed on the real Axecutor, and seeded random layouts/histories "
+                     "through the byte and typed API accessors and through guest loads/stores/RMWs of 1..16 bytes at area edges are recorded; "
+                     "TLC validates every recorded event against Memory.tla with the full area contents compared after each call.",
+                design_ref="DESIGN.md §3 C08",
+                note="Trusted: TLC, the u64 -> model address mapping (2^64 |-> HUGE; exact while areas lie below 2^29), hand-assembled guest templates. "
+                     "Sampled over layouts/values; bounded-exhaustive over the model's edges.",
+                technique="TLA+ spec + TLC model checking against a flat shadow memory; TLC trace validation of edge replays and random histories"),
+    "C09": dict(category="model_checking",
+                text="The same Memory.tla model carries a protection mask per area and per flat byte; TLC checks on every edge that a successful "
+                     "access had the needed bit on every byte and that a denied access changed nothing. Conformance: all 8 masks x every access path "
+                     "(API byte/typed accessors, ~30 guest templates covering loads, stores, immediate stores, RMW with changing and non-changing "
+                     "operands, PUSH/CALL implicit stores, fetch), constructor code area, generated ELF text/rodata/data segments and random mem_prot "
+                     "histories, each event validated by TLC against the specification.",
+                design_ref="DESIGN.md §3 C09",
+                note="Oracle is the property's permission model (x86 cannot express write-only/execute-only). A guest store to memory that is writable "
+                     "but not readable may succeed or be refused (the property only says writes need write permission).",
+                technique="TLA+ spec + TLC model checking; TLC trace validation of a mask x access-path matrix and random protection histories"),
+    "C10": dict(category="model_checking",
+                text="TLC checks NoOverlap as an invariant and the allocation laws (creation never steals a mapped byte, 'anywhere' is fresh and "
+                     "holds the data, resize keeps the prefix and zero-fills) on every edge of the bounded Memory model. Every allocation edge of the "
+                     "depth-2 model is replayed on the real Axecutor; seeded random histories place new areas before/inside/enclosing/abutting old "
+                     "ones, use zero lengths, init_stack, and reuse 'anywhere' results; TLC validates every event (outcome must be one the "
+                     "specification allows, observed area list must stay overlap-free). Hangs are caught by a watchdog.",
+                design_ref="DESIGN.md §3 C10",
+                note="Trusted: TLC, harness projection. ELF-load and brk area creation are exercised by C15/C13's checks, not here.",
+                technique="TLA+ spec + TLC model checking (NoOverlap invariant); TLC trace validation of edge replays and random allocator histories"),
 }
 NOT_YET = {}
 
